@@ -16,7 +16,7 @@ MODULES = [
     "pandapower.pypower.opf", "pandapower.create.gen_create", "pandapower.create.vsc_create", "pandapower.create._utils",
 ]
 # never inject into the cleanup itself or what it calls (double fault), nor into pure helpers that are called thousands of times
-EXCLUDE = {"_clean_up", "get_b2b_vsc_names"}
+EXCLUDE = {"_clean_up", "get_b2b_vsc_names", "reset_bb_switch_impedance"}
 
 
 class InjectedFault(Exception):
